@@ -97,6 +97,7 @@ impl AppState {
                 dataset_name,
             };
             self.backtests.insert(new_id, backtest);
+            self.last = new_id;
             return Some(new_id);
         }
         None
